@@ -193,9 +193,13 @@ def run_check(cid: str, tier: str) -> int:
         build.ensure(v)
     if hasattr(mod, "selfcheck"):
         mod.selfcheck()  # oracle self-consistency; raises -> exit 2
-    groups, meta = mod.plan(tier, seed)
     budget = float(os.environ.get("VT_BUDGET_S", getattr(mod, "BUDGET", {}).get(tier, 1e9)))
     nproc = int(os.environ.get("VT_JOBS", str(min(16, os.cpu_count() or 1))))
+    if hasattr(mod, "explore"):
+        # state-space search driven by the check itself (BFS over histories); it returns the explored
+        # transitions as single-case groups with their results
+        return _finish(cid, tier, seed, mod, t0, *mod.explore(tier, seed, nproc, budget))
+    groups, meta = mod.plan(tier, seed)
     nproc = max(1, min(nproc, len(groups)))
     results = {}
     harness_errors = []
@@ -246,7 +250,10 @@ def run_check(cid: str, tier: str) -> int:
         sys.stderr.write("HARNESS ERROR in %s group %d (case0=%s):\n%s\n" % (
             cid, gi, json.dumps(groups[gi][0], default=str)[:400], err))
         return 2
+    return _finish(cid, tier, seed, mod, t0, groups, results, meta, capped)
 
+
+def _finish(cid, tier, seed, mod, t0, groups, results, meta, capped):
     n_eval = 0
     n_trans = 0
     nontrivial = set()
